@@ -14,6 +14,7 @@
 
 #[cfg(feature = "tracing")]
 use std::time::Duration;
+#[cfg(not(foyer_verif))]
 use std::{
     borrow::Cow,
     fmt::Debug,
@@ -27,6 +28,22 @@ use std::{
     task::{Context, Poll, ready},
     time::Instant,
 };
+#[cfg(foyer_verif)]
+use std::{
+    borrow::Cow,
+    fmt::Debug,
+    future::Future,
+    hash::Hash,
+    pin::Pin,
+    sync::{
+        Arc,
+        atomic::{Ordering},
+    },
+    task::{Context, Poll, ready},
+    time::Instant,
+};
+#[cfg(foyer_verif)]
+use foyer_common::verif::sync::atomic::{AtomicBool};
 
 use equivalent::Equivalent;
 #[cfg(feature = "tracing")]
